@@ -88,7 +88,7 @@ def run(fx, chk, tier):
     chk.floor("PF", "muxer entry points", len(ents), 10)
     ua = panicfree.user_adts(fx, ents)
     chk.analysed["user_supplied_adts"] = sorted(ua)
-    eng = panicfree.Engine(fx, chk, ents, {}, ACCEPTED, profile=getattr(fx, "profile", "dev"), field_exclude=ua)
+    eng = panicfree.Engine(fx, chk, ents, {}, ACCEPTED, profile=getattr(fx, "profile", "dev"), field_exclude=ua, accepted_id="C17")
     chk.analysed["field_invariants"] = {"%s.%s" % (k[0].split("::")[-1], k[1]): list(v) for k, v in sorted(eng.res.field_inv.items()) if v != (0, 2**32-1)}
     chk.floor("PF", "functions in muxer closure", len(eng.clo), 150)
     n = eng.run()
